@@ -1,4 +1,4 @@
-"""C12 -- closing and reopening a project loses nothing (writer/reader agreement R12.1-R12.16)."""
+"""C12 -- closing and reopening a project loses nothing (writer/reader agreement R12.1-R12.17)."""
 from __future__ import annotations
 
 import ast
@@ -25,6 +25,7 @@ EXPLANATION = (
 )
 EXPLANATION += ' R12.15: what do() finds out and undo() needs is saved.  R12.16 (=R16.14): the newline convention is captured after a read.'
 EXPLANATION += ' R12.14: a change kind that can hold a folder saves the kind and is reloaded with it.'
+EXPLANATION += " R12.17: a table of an object whose entries are computed from another table of the object is dropped, entry by entry, wherever the source table changes."
 ASSUMPTIONS = ["taint is flow-insensitive with control dependence on if-tests", "json.dumps/loads behave as documented"]
 
 
@@ -147,6 +148,9 @@ def check(ctx, res) -> None:
     from .c16 import newline_capture_rule
 
     newline_capture_rule(ctx, res, "R12.16")
+    from .common import derived_table_rule as _dt
+
+    _dt(ctx, res, "R12.17", ('rope.base.oi.memorydb', 'rope.base.oi.objectdb', 'rope.base.history', 'rope.base.project', 'rope.base.change', 'rope.base.serializer'))
 
 
 def _resource_kind_rule(ctx, res) -> None:
